@@ -164,6 +164,7 @@ type Mem struct {
 	tids   map[string]int64
 	tidTyp map[int64]types.Type
 	nonNil map[string]bool // terms known to be fresh object ids
+	sliceHook func(SliceV)
 }
 
 func NewMem(c *Ctx) *Mem {
@@ -501,8 +502,11 @@ func (m *Mem) assumeLeafType(st *State, x Term, t types.Type, kind string) {
 func (m *Mem) assumeValueShape(st *State, v Value, t types.Type) {
 	switch x := v.(type) {
 	case SliceV:
+		if m.sliceHook != nil {
+			m.sliceHook(x)
+		}
 		m.c.Assume(And(Le(x.Len, x.Cap), Imp(Eq(x.Arr, IntLit(0)), And(Eq(x.Cap, IntLit(0)), Eq(x.Off, IntLit(0)))),
-			Le(Add(x.Off, x.Cap), IntLit(1<<50))))
+			Le(Add(x.Off, x.Cap), IntLit(1<<47))))
 	case IfaceV:
 		m.c.Assume(Imp(Eq(x.Tag, IntLit(0)), Eq(x.Pay, IntLit(0))))
 	case StructV:
